@@ -243,6 +243,8 @@ pub struct Report {
     pub notes: Vec<String>,
     pub infra_errors: Vec<String>,
     pub measures: BTreeMap<String, i64>,
+    /// panics that escaped a case's capture (shard died); classified in finish()
+    pub uncaptured_panics: Vec<String>,
 }
 
 pub const MAX_SAMPLES: usize = 12;
@@ -269,6 +271,7 @@ impl Report {
         self.exhaustive_parts.extend(other.exhaustive_parts);
         self.notes.extend(other.notes);
         self.infra_errors.extend(other.infra_errors);
+        self.uncaptured_panics.extend(other.uncaptured_panics);
         for (k, v) in other.measures {
             let e = self.measures.entry(k).or_insert(i64::MIN);
             *e = (*e).max(v);
@@ -332,19 +335,38 @@ impl Report {
 thread_local! {
     static PANICS: RefCell<Vec<String>> = const { RefCell::new(Vec::new()) };
     static CAPTURE: RefCell<bool> = const { RefCell::new(false) };
+    static LAST_PANIC: RefCell<Option<String>> = const { RefCell::new(None) };
+}
+
+/// The most recent panic record of this thread ("file:line :: message"), captured or not.
+pub fn last_panic() -> Option<String> {
+    LAST_PANIC.with(|p| p.borrow().clone())
+}
+
+/// Harness sources are compiled with relative paths ("src/.."); the library under test and its
+/// dependencies with absolute ones. A panic located outside the harness is library behaviour.
+pub fn panic_in_harness(rec: &str) -> bool {
+    rec.starts_with("src/")
 }
 
 pub fn install_panic_hook() {
     let default = std::panic::take_hook();
     std::panic::set_hook(Box::new(move |info| {
         let capturing = CAPTURE.with(|c| *c.borrow());
-        if capturing {
+        {
             let loc = info
                 .location()
                 .map(|l| {
                     let f = l.file();
-                    // keep paths short and stable
-                    let f = f.rsplit("/repo/").next().unwrap_or(f);
+                    // keep paths short and stable ("/repo/src/x.rs" -> "repo:src/x.rs",
+                    // registry crates -> "dep:<crate>/src/..")
+                    let f = if let Some(r) = f.split("/repo/").nth(1) {
+                        format!("repo:{}", r)
+                    } else if let Some(r) = f.split("/registry/src/").nth(1) {
+                        format!("dep:{}", r.split_once('/').map(|x| x.1).unwrap_or(r))
+                    } else {
+                        f.to_string()
+                    };
                     format!("{}:{}", f, l.line())
                 })
                 .unwrap_or_else(|| "?".into());
@@ -355,8 +377,13 @@ pub fn install_panic_hook() {
             } else {
                 "?".to_string()
             };
-            PANICS.with(|p| p.borrow_mut().push(format!("{} :: {}", loc, msg)));
-        } else {
+            let rec = format!("{} :: {}", loc, msg);
+            LAST_PANIC.with(|p| *p.borrow_mut() = Some(rec.clone()));
+            if capturing {
+                PANICS.with(|p| p.borrow_mut().push(rec));
+            }
+        }
+        if !capturing {
             default(info);
         }
     }));
@@ -399,7 +426,15 @@ pub fn par_shards(n: usize, stack: usize, work: impl Fn(usize) -> Report + Sync)
             std::thread::Builder::new()
                 .stack_size(stack)
                 .spawn_scoped(s, move || {
-                    let r = work(i);
+                    let r = match std::panic::catch_unwind(std::panic::AssertUnwindSafe(|| work(i))) {
+                        Ok(r) => r,
+                        Err(_) => {
+                            let mut r = Report::default();
+                            let rec = last_panic().unwrap_or_else(|| "? :: unknown panic".into());
+                            r.uncaptured_panics.push(rec);
+                            r
+                        }
+                    };
                     out.lock().unwrap().merge(r);
                 })
                 .unwrap();
@@ -455,6 +490,7 @@ where
         let res = runner.run(&strategy, |v| {
             let mut src = Src::new(&v);
             let case = gen(&mut src);
+            crate::crumb::case(kind, &case);
             let out = check(&case);
             let shrinking = target.borrow().is_some();
             if shrinking {
@@ -513,6 +549,7 @@ where
         let mut i = shard;
         while i < cases.len() {
             let case = &cases[i];
+            crate::crumb::case(kind, case);
             let out = check(case);
             if report.samples.is_empty() && out.nontrivial && shard == 0 {
                 let s = serde_json::to_value(case).unwrap_or(Value::Null);
@@ -603,7 +640,22 @@ pub fn finish(ctx: &Ctx, report: &Report, meta: &PropertyMeta, started: Instant)
         println!("KNOWN-FINDING: property={} {} {} (hits this run: {})", ctx.id, sig, what, hits);
     }
     let mut code = 0;
-    for v in &report.violations {
+    let mut extra_violations = vec![];
+    let mut infra = report.infra_errors.clone();
+    for rec in &report.uncaptured_panics {
+        if panic_in_harness(rec) {
+            infra.push(format!("harness panic: {}", rec));
+        } else {
+            extra_violations.push(Violation {
+                property: ctx.id.clone(),
+                kind: "uncaptured-panic".into(),
+                signature: format!("{}/panic/{}", ctx.id, panic_sig(rec)),
+                message: format!("library code panicked outside a case capture: {}", rec),
+                case: json!({"record": rec}),
+            });
+        }
+    }
+    for v in report.violations.iter().chain(extra_violations.iter()) {
         let dir = ctx.verif_dir.join("replays").join("found").join(&ctx.id);
         let _ = std::fs::create_dir_all(&dir);
         let name = format!("{}-{:08x}.json", slug(&v.signature), hash_of(&v.case.to_string()) as u32);
@@ -614,8 +666,8 @@ pub fn finish(ctx: &Ctx, report: &Report, meta: &PropertyMeta, started: Instant)
         println!("  message:   {}", v.message);
         code = 1;
     }
-    if code == 0 && !report.infra_errors.is_empty() {
-        for e in &report.infra_errors {
+    if code == 0 && !infra.is_empty() {
+        for e in &infra {
             println!("INFRA: {}", e);
         }
         code = 2;
@@ -642,5 +694,15 @@ pub fn health(report: &mut Report, class: &str, of: u64, min_permille: u64) {
             "generator health: class '{}' is {} of {} cases (< {}‰)",
             class, n, of, min_permille
         ));
+    }
+}
+
+/// Generator health gate on an absolute count.
+pub fn health_abs(report: &mut Report, class: &str, min: u64) {
+    let n = report.classes.get(class).copied().unwrap_or(0);
+    if n < min {
+        report
+            .infra_errors
+            .push(format!("generator health: class '{}' has only {} cases (< {})", class, n, min));
     }
 }
